@@ -1,9 +1,12 @@
 /- Core/RealTransc.lean — the real instantiation of the transcendental hooks (theorems are read here). -/
 import SophtVerif.Core.Grid
 import Mathlib.Analysis.SpecialFunctions.Trigonometric.Basic
+import Mathlib.Analysis.SpecialFunctions.Sqrt
 
 namespace Sopht
-noncomputable def realTransc : Transc ℝ := ⟨Real.sin, Real.pi⟩
+noncomputable def realTransc : Transc ℝ := ⟨Real.sin, Real.pi, Real.cos, Real.sqrt⟩
+@[simp] theorem realTransc_cos : realTransc.cos = Real.cos := rfl
+@[simp] theorem realTransc_sqrt : realTransc.sqrt = Real.sqrt := rfl
 @[simp] theorem realTransc_sin : realTransc.sin = Real.sin := rfl
 @[simp] theorem realTransc_pi : realTransc.pi = Real.pi := rfl
 end Sopht
